@@ -1,7 +1,7 @@
 #!/bin/bash
 # build.sh <flavour>  — builds libascon_static.a from /repo's CURRENT working tree into
 # /verif/.build/lib/<flavour> (out of tree, incremental) and the driver into /verif/.build/drv/<flavour>/drv.
-# flavour = '+'-separated tokens: rel | san | tsan | c32 | c64 | dxor | generic | chk | ksN | dsN | msN | nodrv
+# flavour = '+'-separated tokens: rel | san | tsan | c32 | c64 | dxor | generic | chk | ksN | dsN | msN | nodrv | realmask | sysrng | nobzero
 set -e
 FL=${1:-rel}
 REPO=${REPO:-/repo}
@@ -27,6 +27,7 @@ for t in "${TOK[@]}"; do
     ms[234]) CM+=(-DMAX_SHARES=${t#ms});;
     nodrv) NODRV=1;;
     realmask) REALMASK=1;;
+    nobzero) CM+=(-DHAVE_EXPLICIT_BZERO=OFF -DHAVE_MEMSET_S=OFF);;      # a C library without explicit_bzero / memset_s: ascon_clean's own loop
     sysrng) SYSRNG=1; DEFS="$DEFS -DDRV_SYSRNG";;
     *) echo "build.sh: unknown flavour token $t" >&2; exit 2;;
   esac
